@@ -232,6 +232,38 @@ Proof.
   rewrite <- LL. rewrite skipn_all, Nat.sub_diag. reflexivity.
 Qed.
 
+(* the replacement that replace_node / remove_node build for a statement spanning lines a..b
+   (get_line_range_for_node returns the consecutive range): everything outside [a, b] is kept,
+   the range is replaced by the new lines *)
+Lemma list_max_seq : forall n a, list_max (seq a (S n)) = a + n.
+Proof.
+  induction n as [|n IH]; intros a.
+  - cbn. lia.
+  - change (seq a (S (S n))) with (a :: seq (S a) (S n)). cbn [list_max fold_right].
+    change (fold_right Nat.max 0 (seq (S a) (S n))) with (list_max (seq (S a) (S n))). rewrite IH. lia.
+Qed.
+
+Theorem apply_range : forall (f : file) a b adds rest,
+  1 <= a -> a <= b -> b <= length f ->
+  apply_changes (mk_repl (seq a (S (b - a))) (Some adds) :: rest) f
+  = firstn (a - 1) f ++ adds ++ skipn b f.
+Proof.
+  intros f a b adds rest A1 AB BL.
+  set (ch := mk_repl (seq a (S (b - a))) (Some adds)).
+  assert (R : forall d, In d (r_del ch) -> a <= d <= b).
+  { intros d IN. unfold ch in IN. cbn [r_del] in IN. apply in_seq in IN. lia. }
+  assert (NE : r_del ch <> []) by (unfold ch; cbn [r_del seq]; discriminate).
+  assert (MX : list_max (r_del ch) = b) by (unfold ch; cbn [r_del]; rewrite list_max_seq; lia).
+  destruct (apply_shape ch rest f adds eq_refl NE (seq_NoDup _ _)) as [pre [E L]].
+  { intros d IN. apply R in IN. nlia. }
+  rewrite MX in E, L. unfold ch in L. cbn [r_del] in L. rewrite seq_length in L.
+  pose proof (apply_keeps_prefix ch rest f (a - 1) NE) as P.
+  rewrite E in P. rewrite firstn_app in P.
+  replace (a - 1 - length pre) with 0 in P by lia. rewrite firstn_O, app_nil_r in P.
+  rewrite firstn_all2 in P by lia.
+  rewrite E. f_equal. apply P. intros d IN. apply R in IN. nlia.
+Qed.
+
 (* ------------------------------------------------------------------ *)
 (* 2. the inserted line is a comment: code lines are untouched         *)
 
